@@ -889,7 +889,7 @@ pub fn run(tier: &str) -> i32 {
             max_hdrs: mh,
             max_resps: 1,
         };
-        let e = explore(&m, &Limits::new(2, if quick { 58 } else { 6000 }));
+        let e = explore(&m, &Limits::new(2, if quick { 300 } else { 6000 }));
         rep.absorb(
             &format!("TREE n={} theta={} x replies of <= {} items over {} kinds, <= {} announced headers over {} kinds", n, theta, mi, ALL_ITEMS.len(), mh, ALL_HDRS.len()),
             e,
